@@ -617,6 +617,32 @@ func (nr *netRun) checkC04(x *xfer) {
 			}
 		}
 	}
+	// a restart request that the validator refuses: "its transport channel is closed". (A restart carried by a graphsync
+	// request is refused through the hook, which terminates that request; one that arrived over libp2p needs CloseChannel.)
+	for _, vc := range b.ValCalls {
+		if vc.ChID != x.chid || vc.Kind != "restart" || vc.Life != b.life || (vc.Err == nil && vc.Result.Accepted) {
+			continue
+		}
+		carrier := ""
+		for _, w := range b.Wire {
+			if w.Dir == "recv" && w.Sum.Req && w.Sum.Restart && w.Sum.TID == x.chid.ID && w.Step <= vc.Step && w.Life == b.life {
+				carrier = w.Carrier
+			}
+		}
+		if carrier != "libp2p" {
+			continue
+		}
+		r.Probe("restart-refused-by-validator")
+		closed := false
+		for _, tc := range b.TpCalls {
+			if tc.Kind == "close" && tc.ChID == x.chid && tc.Step >= vc.Step && tc.Life == b.life {
+				closed = true
+			}
+		}
+		if !closed {
+			r.Failf("C04", "refused-restart-transport-not-closed", "", "the validator refused the restart of channel #%d (step %d) but the responder never closed the channel's transport channel", x.idx, vc.Step)
+		}
+	}
 	// the channel exists on the responder only if some validation accepted it
 	if _, ok := b.State(x.chid); ok {
 		acc := false
